@@ -204,6 +204,20 @@ def St.cancel (s : St) (purge : Bool) : St × CancelRes × Option Nat :=
     let req := if r.status.isTerminal then none else some r.runId
     if purge then ({ s with row := none }, .deleted, req) else (s, .cancelled, req)
 
+/-- `cancel_handler` including `_cancel_run`.  `inMemory`: the run's control loop is alive in this process.
+Then `cancel_run()` delivers `TickCancelRun`, the loop publishes `WorkflowCancelledEvent` through the run's
+adapter and the handler object is awaited.  A run that was *released while idle* is not in memory: building the
+`WorkflowHandler` starts a result task that fails at once ("No active workflow with run_id"), so `run.done()`
+is already true, `cancel_run()` is skipped, nothing reloads the run — and the service still answers `cancelled`.
+(Store exceptions inside `_cancel_run` are swallowed there; the race with a run that ends first is left to C04.) -/
+def St.cancelHandler (s : St) (purge : Bool) (inMemory : Bool) : St × CancelRes :=
+  match s.row with
+  | none => (s, .none)
+  | some r =>
+    if !purge && r.status.isTerminal then (s, .none) else
+    let s1 := if !r.status.isTerminal && inMemory then (s.writeEvent r.runId { kind := .cancelled } false).1 else s
+    if purge then ({ s1 with row := none }, .deleted) else (s1, .cancelled)
+
 /-! ### `_on_server_start` -/
 
 inductive ExitKind
